@@ -105,6 +105,7 @@ def fresh_fields(eng, st, name):
     f["sym"] = TGraph.fresh(name + ".symbolic")
     f["pn"] = TPN.fresh(name + ".petri_net")
     f["nfvs"] = OptLN.fresh(name + ".nfvs")
+    f["tok"] = TInt.fresh(name + ".history_token")   # GHOST: abstract state token, advanced only by operations whose effect is assumed as an uninterpreted function of (token, arguments)
     f["cfg_debug"] = vbool(False)       # contracts are for debug == False (debug branches are not extracted)
     for k in CONFIG_KEYS:
         f["cfg_" + k] = TInt.fresh(f"{name}.cfg.{k}")
